@@ -260,6 +260,11 @@ def gen_cases(tier, seed):
                     yield dict(i=i, kind="tsan", driver=drv, args=args, threads=th, rep=rep, seed=seed * 100 + rep)
                     i += 1
     if tier == "thorough":
+        for drv, args in (("sasa", [4, 30, 20]), ("sasa", [7, 50, 30]), ("neighborlist", [300, 1]), ("neighborlist", [200, 0]),
+                          ("rmsd", [9, 37]), ("rmsd", [5, 6])):
+            for th in (1, 3):
+                yield dict(i=i, kind="valgrind", driver=drv, args=args, threads=th, seed=seed)
+                i += 1
         for env in [dict(OMP_NUM_THREADS=n) for n in (1, 2, 3, 5, 8, 16, 64)] + [dict(OMP_DYNAMIC="true", OMP_NUM_THREADS=8),
                                                                                       dict(OMP_SCHEDULE="dynamic,1", OMP_NUM_THREADS=5),
                                                                                       dict(OMP_SCHEDULE="guided", OMP_NUM_THREADS=3),
@@ -274,6 +279,8 @@ def run_case(case, ctx):
         return run_tsan(case, ctx)
     if case["kind"] == "env":
         return run_env(case, ctx)
+    if case["kind"] == "valgrind":
+        return run_valgrind(case, ctx)
     F = functions()
     spec = F[case["fn"]]
     name = case["fn"]
@@ -372,6 +379,28 @@ def run_tsan(case, ctx):
                       f"ThreadSanitizer: data race in {pr} with {case['threads']} threads", report=r["races"][0]["text"][:1200])
     else:
         ctx.ok("tsan.no-race")
+
+
+def run_valgrind(case, ctx):
+    """memcheck on the uninstrumented drivers: use of uninitialised values or invalid writes inside mdtraj kernels mean the
+    per-frame result depends on something other than the frame (reads are leads only, see DESIGN 2.4-M6)."""
+    from vlib import natives
+    exe = natives.build_driver(case["driver"], "plain")
+    r = natives.run_valgrind(exe, case["args"] + [case["seed"]], case["threads"])
+    ctx.observe("valgrind_driver", f"{case['driver']}:threads={case['threads']}")
+    if "RESULT" not in r["stdout"]:
+        ctx.skip("valgrind", f"driver did not finish under valgrind: {r['stderr_tail'][-200:]}")
+        return
+    verdicts = [x for x in r["reports"] if (x["kind"].startswith(("Conditional jump", "Use of uninitialised", "Invalid write", "Invalid free",
+                                                                   "Mismatched free"))) and x["file"] in natives.kernel_files(case["driver"])]
+    for x in r["reports"]:
+        if x not in verdicts:
+            ctx.observe("valgrind_lead", f"{x['kind']}:{x['func']}")
+    if verdicts:
+        v = verdicts[0]
+        ctx.violation("valgrind", f"valgrind:{case['driver']}:{v['kind'].replace(' ', '-')}:{v['func']}", f"memcheck: {v['kind']} in {v['func']} ({v['file']})", report=v["text"])
+    else:
+        ctx.ok("valgrind")
 
 
 ENV_CHILD = r"""
